@@ -51,7 +51,11 @@ func TestVerifC05(t *testing.T) {
 			}
 			s.Note("%s pub=%v", r.outcome(), r.Store.Published)
 		}
-		st := sched.Explore(t, sched.Config{MaxPreempt: P, MaxDev: D, Deadline: deadline, Shard: shard, NShards: n}, body, func(x *sched.Exec) {
+		p, d := P, D
+		if sc.P > 0 {
+			p, d = sc.P, sc.D
+		}
+		st := sched.Explore(t, sched.Config{MaxPreempt: p, MaxDev: d, Deadline: deadline, Shard: shard, NShards: n, DelayBound: sc.Delay}, body, func(x *sched.Exec) {
 			rep.Eval(1)
 			sw, dev := x.NonDefault()
 			rep.Outcome(sc.Name+"|"+fmt.Sprint(x.Notes), sw > 0 || dev > 0)
@@ -80,8 +84,8 @@ func c05Scenarios() []vProdScenario {
 	}
 	if vh.Thorough() {
 		sc = append(sc,
-			vProdScenario{Name: "2p-2b", Producers: [][]int{{1, 1}, {2, 1}}, PreOpen: true, FailS3: true},
-			vProdScenario{Name: "3p-maxbatches1", Producers: [][]int{{1}, {1}, {2}}, MaxBatches: 1, PreOpen: true, FailS3: true},
+			vProdScenario{Name: "2p-2b", Producers: [][]int{{1, 1}, {2, 1}}, PreOpen: true, FailS3: true, P: 3, D: 2, Delay: true},
+			vProdScenario{Name: "3p-maxbatches1", Producers: [][]int{{1}, {1}, {2}}, MaxBatches: 1, PreOpen: true, FailS3: true, P: 3, D: 2, Delay: true},
 		)
 	}
 	return sc
